@@ -169,6 +169,21 @@ def run(chk, repo, tier):
                     det_e = f'undecided: exponent not understood element-wise ({ex})'
                 chk.ob('C19-e', 'N-const', key, 'Gaussian MTF exp(-2*pi^2*sigma^2*rho^2), rho^2 = xx^2 + yy^2', ok,
                        det_e or f'argument {fmt(arg)[:220]}', f.loc(p.node))
+            if ext:
+                # identity at zero extent must be *reached*: nothing is divided by a quantity that vanishes with the extent
+                bad_div = []
+                for e in p.events:
+                    if e.kind == 'arith' and e.data.get('op') in ('div', 'floordiv', 'mod') and isinstance(e.data.get('right'), Poly):
+                        d = e.data['right']
+                        if d.terms and all(any(a == ('sym', ext) and ex > 0 for a, ex in m) for m, _ in d.terms):
+                            bad_div.append(f'{fmt(e.data["left"])[:40]} / {fmt(d)[:60]} at {e.loc()}')
+                    if e.kind == 'arith' and e.data.get('op') == 'pow' and isinstance(e.data.get('left'), Poly) and \
+                            isinstance(e.data.get('right'), Poly) and (e.data['right'].const_value() or 0) < 0:
+                        d = e.data['left']
+                        if d.terms and all(any(a == ('sym', ext) and ex > 0 for a, ex in m) for m, _ in d.terms):
+                            bad_div.append(f'({fmt(d)[:60]})**{fmt(e.data["right"])} at {e.loc()}')
+                chk.ob('C19-d', 'N-dc', key, f'zero extent is evaluated without dividing by it [{tag}]', not bad_div,
+                       '; '.join(bad_div[:2]) or 'no divisor vanishes with the extent', f.loc(p.node))
             if key != 'detector.pixel':
                 # C19-f: ret = out * sum(img)/sum(out)
                 out = absatom
